@@ -76,7 +76,8 @@ AbortShape(C, X, s) ==
         /\ X.st[k] = "running" => /\ IsSched(C, k)
                                   /\ X.creq[k] \/ X.cause[k] = "cancelled"
         /\ X.st[k] \in {"running", "cancelling"} => X.pc[s] = "tidy"
-        /\ Fin(X, k) => X.te[k] <= X.ta[s]
+        \* (a body that raised while being cancelled finished after the abort: tc >= 0)
+        /\ (Fin(X, k) /\ X.tc[k] < 0) => X.te[k] <= X.ta[s]
 
 (* C05  critical failure aborts at once                                    *)
 C05(C, X) ==
